@@ -202,6 +202,10 @@ class Gen:
         nm = self.name("sewer")
         self.nodes.append({"name": nm, "type_": "Sewer", "capacity": F(r.choice([2, 10, 40])), "pipe_time": r.choice([0, 0, 1]),
                            "pipe_timearea": r.choice([{0: F(1)}, {0: F(1, 2), 1: F(1, 2)}, {0: F(3, 4), 2: F(1, 4)}])})
+        if random.Random(f"sewerdata{len(self.nodes)}:{self.dates[0]}:{self.n}").random() < 0.4:
+            # a sewer with temperature data (read by a decaying arc that leaves it); a stream of its own
+            rq = random.Random(f"sewertemp{len(self.nodes)}")
+            self.nodes[-1]["data_input_dict"] = self.data({"temperature": [temp(rq) for _ in range(self.n)]})
         return nm
 
     def wtw_params(self):
@@ -353,6 +357,12 @@ def mix_arcs(g, r, p):
         a["type_"] = t
         if t in ("QueueArc", "DecayArc"):
             a["number_of_timesteps"] = r.choice([0, 1, 1, 2])
+            if pair == ("Sewer", "WWTW") and a["number_of_timesteps"] and r.random() < 0.7:
+                # ... into a works that is often full when the water sent earlier arrives: it comes back to the sewer inside
+                # the reply to a later push, with the quality it had when it was sent
+                dst = next(n for n in g.nodes if n["name"] == a["out_port"])
+                dst["treatment_throughput_capacity"] = F(r.choice([1, 2]))
+                dst["stormwater_storage_capacity"] = F(r.choice([0, 1]))
         if t == "AltQueueArc":
             a["number_of_timesteps"] = r.choice([1, 2])
         if t == "DecayArc" and adds:
